@@ -92,7 +92,40 @@ def process_level(res, tier):
                     if not (s2[i] <= s2[i - 1] + 2e-6):
                         res.violate("C04/process/damping-only/stencil=%d/not-monotonic" % stencil, bcase, "record %d: sigma_q^2+sigma_p^2 grows from %.7f to %.7f" % (i, s2[i - 1], s2[i]), replay=rp)
                         break
-    res.bounds_done.append("process level: %d runs of the real binary (-G 0): full FP limit after 8 damping times, damping-only monotonicity" % len(cases))
+    # a grid of more than 256 cells (384): too large for a run to the limit on every change (the stable range of the explicit scheme forces a long damping time), so the
+    # statement's other half is judged - a distribution at the natural size stays there, one below it moves towards 1 and never further away than it started
+    big = []
+    for zoom in (1.0, 0.8):
+        big.append(("-s 384 zoom=%g" % zoom, zoom, ["-s", 384, "-N", 100, "-T", 20, "-n", 100, "-G", 0, "-f", fs, "-d", 83.0 / fs, "--InitialDistZoom", zoom, "--padding", 2]))
+
+    def dobig(b):
+        name, zoom, a = b
+        r = pl.run(exe, a, wd, out="big_%g.h5" % zoom, timeout=900)
+        doc = pl.h5(r["h5"], maxv=20000) if r["rc"] == 0 else None
+        for f in (r["h5"], r["h5"] + ".cfg", r["h5"] + ".log"):
+            try:
+                os.remove(f)
+            except OSError:
+                pass
+        return b, r, doc
+    for (name, zoom, a), r, doc in pl.pmap(dobig, big):
+        case = "process " + name + " (100 steps per period, damping time 83 periods, 20 periods)"
+        rp = dict(cmd=r["cmd"])
+        if doc is None or "error" in doc:
+            res.violate("C04/process/run-failed", case, "rc=%s %s" % (r["rc"], r["log"][-200:]), replay=rp)
+            continue
+        bl = doc["datasets"]["/BunchLength/data"]["data"]
+        es = doc["datasets"]["/EnergySpread/data"]["data"]
+        res.eval(case, pl.chash(case, bl, es), trivial=False)
+        for nm, series in (("bunch length", bl), ("energy spread", es)):
+            s0 = series[0]
+            worst = max(abs(x - 1) for x in series)
+            ok = worst <= abs(s0 - 1) + 0.006      # (the kick-drift splitting makes length and spread beat at the per-mille level)
+            if zoom != 1.0:
+                ok = ok and abs(series[-1] - 1) < abs(s0 - 1) - 0.03      # 0.8 -> 0.86 after 20 of 83 periods: it must have moved towards 1
+            if not ok:
+                res.violate("C04/process/large-grid/does-not-approach-1", case, "%s starts at %.4f, ends at %.4f, is at most %.4f away from 1 on the way" % (nm, s0, series[-1], worst), replay=rp)
+    res.bounds_done.append("process level: %d runs of the real binary (-G 0): full FP limit after 8 damping times, damping-only monotonicity; 2 runs on a 384-cell grid" % len(cases))
 
 
 def run(res, tier):
